@@ -351,7 +351,14 @@ where
     }
 
     fn run(&self, ctx: &Ctx, prop: &str) -> SubResult {
-        let total = (self.cases)(ctx.tier);
+        // VERIF_CASE_SCALE (the environment sweep of the driver): a fraction of the tier's budget, at least 64 cases
+        let total = {
+            let t = (self.cases)(ctx.tier);
+            match std::env::var("VERIF_CASE_SCALE").ok().and_then(|v| v.parse::<f64>().ok()) {
+                Some(f) if f > 0.0 && f < 1.0 => ((t as f64 * f) as u64).max(64).min(t),
+                _ => t,
+            }
+        };
         let stop = AtomicBool::new(false);
         let merged = Mutex::new(Stats::default());
         let failure: Mutex<Option<Failure>> = Mutex::new(None);
